@@ -684,6 +684,23 @@ fn batched(req: &J) -> J {
     json!({"ordinary": format!("{:?}", ordinary.decision()), "batched": out})
 }
 
+/// policy text -> Policy -> JSON (EST) -> Policy: equal to the original?  {policy} -> {equal, back, json}
+fn est_roundtrip(req: &J) -> J {
+    let id = cedar_policy::PolicyId::new("p0");
+    let p = match cedar_policy::Policy::parse(Some(id.clone()), req["policy"].as_str().unwrap_or("")) {
+        Ok(p) => p,
+        Err(e) => return json!({"parse_error": e.to_string()}),
+    };
+    let j = match p.to_json() {
+        Ok(j) => j,
+        Err(e) => return json!({"to_json_error": e.to_string()}),
+    };
+    match cedar_policy::Policy::from_json(Some(id), j.clone()) {
+        Ok(q) => json!({"equal": p == q, "back": q.to_string(), "json": j}),
+        Err(e) => json!({"equal": false, "back": format!("error: {e}"), "json": j}),
+    }
+}
+
 fn handle(req: &J) -> J {
     match req["op"].as_str().unwrap_or("") {
         "eval" => eval(req),
@@ -698,6 +715,7 @@ fn handle(req: &J) -> J {
         "tc" => tc(req),
         "tc_edit" => tc_edit(req),
         "batched" => batched(req),
+        "est_roundtrip" => est_roundtrip(req),
         other => json!({"unknown_op": other}),
     }
 }
